@@ -202,7 +202,18 @@ func run(c dnk.Case, k *ev.Case) *ev.Failure {
 	return nil
 }
 
-var sub = ev.Sub[dnk.Case]{Name: "downstream-acks", Repeats: 30, Q: 150, T: 5000, Gen: func(t *rapid.T) dnk.Case { return dnk.Gen(t, 60, false) }, Run: run}
+var sub = ev.Sub[dnk.Case]{Name: "downstream-acks", Repeats: 30, Q: 150, T: 5000, Gen: func(t *rapid.T) dnk.Case {
+	c := dnk.Gen(t, 60, false)
+	// the application may read one downstream from several goroutines: acknowledgement and alias announcement stay exactly-once
+	c.Readers = rapid.SampledFrom([]int{1, 1, 2, 4}).Draw(t, "readers")
+	if rapid.IntRange(0, 3).Draw(t, "datagram") == 0 {
+		c.Datagram = true
+		if c.QoS == 0 {
+			c.QoS = rapid.IntRange(1, 2).Draw(t, "qos-datagram")
+		}
+	}
+	return c
+}, Run: run}
 
 func TestProp(t *testing.T)   { sub.Check(t) }
 func TestReplay(t *testing.T) { ev.ReplayTest(t, sub) }
